@@ -18,6 +18,10 @@ pub enum SynthesisError { AssignmentMissing, Unsatisfiable, Other }
 pub uninterp spec fn fv_val(x: FqVar) -> int;
 pub uninterp spec fn fv_of(v: int) -> FqVar;
 pub uninterp spec fn bv_val<F>(b: Boolean<F>) -> bool;
+// a variable allocated in Constant mode carries no constraint system: `cs()` is ConstraintSystemRef::None, and
+// witnessing into None fails with SynthesisError::MissingCS (defect D7, repaired by dc3044d, lived exactly here)
+pub uninterp spec fn fv_const(x: FqVar) -> bool;
+pub uninterp spec fn cs_none<F>(c: ConstraintSystemRef<F>) -> bool;
 pub broadcast axiom fn fv_range(x: FqVar) ensures 0 <= #[trigger] fv_val(x) < fq_p();
 pub broadcast axiom fn fv_of_val(v: int) requires 0 <= v < fq_p() ensures fv_val(#[trigger] fv_of(v)) == v;
 pub broadcast group r1cs_axioms { fv_range, fv_of_val }
@@ -29,14 +33,14 @@ impl<F> Boolean<F> {
 }
 impl Clone for FqVar { #[verifier::external_body] fn clone(&self) -> (r: FqVar) ensures r.val() == self.val() { unimplemented!() } }
 impl<F> Clone for Boolean<F> { #[verifier::external_body] fn clone(&self) -> (r: Boolean<F>) ensures r.bval() == self.bval() { unimplemented!() } }
-impl<F> Clone for ConstraintSystemRef<F> { #[verifier::external_body] fn clone(&self) -> (r: ConstraintSystemRef<F>) { unimplemented!() } }
+impl<F> Clone for ConstraintSystemRef<F> { #[verifier::external_body] fn clone(&self) -> (r: ConstraintSystemRef<F>) ensures cs_none(r) == cs_none(*self) { unimplemented!() } }
 
 // ---- allocation
 impl FqVar {
     #[verifier::external_body]
     pub fn new_witness<T: FnOnce() -> Result<Fq, SynthesisError>>(cs: ConstraintSystemRef<Fq>, f: T) -> (r: Result<FqVar, SynthesisError>)
 //#if COMPL
-        requires call_requires(f, ())
+        requires call_requires(f, ()), !cs_none(cs)
         ensures match r { Ok(x) => exists|h: Fq| call_ensures(f, (), Ok::<Fq, SynthesisError>(h)) && x.val() == h.val(), Err(_) => false }
 //#endif
     { unimplemented!() }
@@ -51,7 +55,10 @@ impl FqVar {
     #[verifier::external_body]
     pub fn zero() -> (r: FqVar) ensures r.val() == 0 { unimplemented!() }
     #[verifier::external_body]
-    pub fn cs(&self) -> (r: ConstraintSystemRef<Fq>) { unimplemented!() }
+    pub fn cs(&self) -> (r: ConstraintSystemRef<Fq>) ensures cs_none(r) == fv_const(*self) { unimplemented!() }
+    // R1CSVar::is_constant: whether the variable was allocated in Constant mode (then it has no constraint system)
+    #[verifier::external_body]
+    pub fn is_constant(&self) -> (r: bool) ensures r == fv_const(*self) { unimplemented!() }
     // R1CSVar::value: the assigned value (Err in setup mode, where there is no assignment)
     #[verifier::external_body]
     pub fn value(&self) -> (r: Result<Fq, SynthesisError>)
@@ -108,7 +115,7 @@ impl<F> Boolean<F> {
     #[verifier::external_body]
     pub fn new_witness<T: FnOnce() -> Result<bool, SynthesisError>>(cs: ConstraintSystemRef<F>, f: T) -> (r: Result<Boolean<F>, SynthesisError>)
 //#if COMPL
-        requires call_requires(f, ())
+        requires call_requires(f, ()), !cs_none(cs)
         ensures match r { Ok(x) => call_ensures(f, (), Ok::<bool, SynthesisError>(x.bval())), Err(_) => false }
 //#endif
     { unimplemented!() }
